@@ -365,6 +365,7 @@ impl<D: Device, P: Protocol, S: Socket, TS: TimeSource> GenericCloud<D, P, S, TS
         }
         for addr in del {
             if self.peers.remove(&addr).is_some() {
+                self.table.remove_claims(addr);
                 self.connect_sock(addr)?;
             }
         }
